@@ -12,6 +12,7 @@
  R5 every round updates the default flow exactly once; a flow's round_count grows by one per attributed round (C10.R2).
  R6 attribution at capacity: every trace of update_from_round consults the registry for a matching flow (register below the cap, lookup at
     the cap) and attributes the round to the flow found.
+ R6b State::update_trace_flow(flow_id, round) applies the round once to the per-flow state stored under that flow_id.
  R7 positions: the flow of a round has one entry per slot that occupied a time-to-live of its own — Complete ⇒ the responder's address, Awaited and
     Failed ⇒ unknown — and none for NotSent / Skipped slots (a skipped slot's time-to-live is carried by the re-issued probe); the entries are the
     slots of round.probes in order (no other adaptor than the optional cut at the round's length), and Flow::from_hops maps every item to one entry
@@ -391,6 +392,26 @@ def run(chk, tier):
     else:
         chk.fail('R4', 'register-callers', fn_loc(freg), 'FlowRegistry::register is called from %s: the max_flows guard can be bypassed' % callers, key='R4|register-callers')
     chk.ok('R6', 'flow-construction', 'Flow::from_hops(round.probes …) — see R3 for matching and R7 for positions', nontrivial=False)
+
+    # ---- R6b: the round is folded into the state of the flow it was attributed to -----------------------------
+    # update_trace_flow(flow_id, round) applies `round` to the per-flow state stored under *that* flow_id (created empty on first use) — otherwise a
+    # flow's round count and hop statistics are not those of the rounds attributed to it
+    futf = prog.find(r'state::State::update_trace_flow$')
+    chk.fn_seen(futf['path'])
+    eu = Engine(prog, inline_depth=0)
+    stu = St()
+    ou = eu.run(futf, [eu.sym_ref(stu, 'self'), ('sym', 'flow_id'), eu.sym_ref(stu, 'round')], stu)
+    ENT = r'(?:call:Entry::or_insert_with\(call:HashMap::entry\(self\.state, flow_id\), closure:[\w:{}#]+\)|call:Entry::or_insert\(call:HashMap::entry\(self\.state, flow_id\), .*\)|call:Entry::or_default\(call:HashMap::entry\(self\.state, flow_id\)\)|field:0\(call:HashMap::get_mut\(self\.state, flow_id\)\))'
+    good_u = bool(ou)
+    for o in ou:
+        ups = [[vshow(x) for x in c[7]] for c in user_calls(o, r'FlowState::update_from_round$')]
+        if o.kind != 'return' or len(ups) != 1 or not re.fullmatch(ENT, ups[0][0]) or ups[0][1] != 'round':
+            good_u = False
+    if good_u:
+        chk.ok('R6', 'update_trace_flow', 'state.entry(flow_id).or_insert_with(new).update_from_round(round), once per call')
+    else:
+        chk.fail('R6', 'update_trace_flow', fn_loc(futf), 'State::update_trace_flow does not apply the round exactly once to the per-flow state stored under its flow_id argument (%s)' % (
+            [[vshow(x)[:90] for x in c[7]] for o in ou for c in user_calls(o, r'FlowState::update_from_round$')][:2]), key='R6|update_trace_flow')
 
     # ---- R7: which slots take a position in the flow of their round --------------------------------------
     from .state_common import PS, CELLS
